@@ -31,6 +31,12 @@ const PKGS: &[PkgDesc] = &[
     PkgDesc { name: "test:c", version: None, wat: r#"(component
         (import "i" (instance (export "x" (func)) (export "y" (func))))
         (export "i" (instance 0)))"# },
+    PkgDesc { name: "test:d", version: None, wat: r#"(component
+        (import "f" (func))
+        (import "g" (func))
+        (import "h" (func))
+        (export "x" (func 0))
+        (export "y" (func 1)))"# },
 ];
 
 struct Local { defs: Vec<Type>, kinds: Vec<ItemKind> }
@@ -325,7 +331,7 @@ fn alphabet(run: &Run, small: bool) -> Vec<Op> {
     let mut v = Vec::new();
     let nodes = run.live_nodes();
     let names: &[usize] = if small { &[0, 1, 2, 6] } else { &[0, 1, 2, 3, 4, 5, 6, 7, 8, 9, 10, 11] };
-    for p in 0..PKGS.len() { if !small || p < 3 { v.push(Op::Reg(p)); } }
+    for p in 0..PKGS.len() { if !small || p < 3 || p == 4 { v.push(Op::Reg(p)); } }
     for (k, _) in run.pkgs.iter().filter(|(k, _)| !run.stale.contains(k)) { v.push(Op::Unreg(k.0, k.1)); v.push(Op::Inst(k.0, k.1)); }
     for t in 0..run.local.defs.len() { if !small || t < 3 { for n in names.iter().take(if small { 2 } else { 12 }) { v.push(Op::Def(*n + if small { 6 } else { 0 }, t)); } } }
     for k in 0..run.local.kinds.len() { if !small || k < 3 { for n in names.iter().take(if small { 2 } else { 12 }) { v.push(Op::Imp(*n, k)); } } }
@@ -352,8 +358,8 @@ fn random_op(run: &Run, r: &mut Rng) -> Op {
         if nodes.is_empty() { continue; }
         let n = *r.pick(&nodes);
         if c < 56 { return Op::Alias(n, nm(r)); }
-        if c < 72 { return Op::SetArg(*r.pick(&nodes), *r.pick(&[0usize, 1, 2, 2, 0, 3]), n); }
-        if c < 76 { return Op::UnsetArg(*r.pick(&nodes), *r.pick(&[0usize, 1, 2]), n); }
+        if c < 72 { return Op::SetArg(*r.pick(&nodes), *r.pick(&[0usize, 1, 2, 2, 0, 3, 5, 1]), n); }
+        if c < 76 { return Op::UnsetArg(*r.pick(&nodes), *r.pick(&[0usize, 1, 2, 5]), n); }
         if c < 84 { return Op::Export(n, nm(r)); }
         if c < 88 { return Op::Unexport(n); }
         if c < 90 { return Op::Name(n, nm(r)); }
@@ -386,6 +392,32 @@ fn main() {
         }
         obs
     };
+    if tier == "extend" {
+        // search mode: every continuation of length 1 and 2 (full alphabet over live identifiers) of each given prefix
+        let mut budget = 60_000usize;
+        for line in std::fs::read_to_string(&args[5]).unwrap().lines() {
+            if let Some(h) = line.strip_prefix("H ") {
+                let prefix: Vec<Op> = h.split(';').filter(|s| !s.is_empty() && *s != "enc").map(parse_op).collect();
+                let mut run = Run::new();
+                for o in prefix.iter() { if run.dead { break; } run.apply(&u, o); }
+                if run.dead { let obs = exec(&prefix); emit(&prefix, &obs); continue; }
+                for o1 in alphabet(&run, false) {
+                    let mut p1 = prefix.clone(); p1.push(o1);
+                    let mut run1 = Run::new();
+                    for o in p1.iter() { if run1.dead { break; } run1.apply(&u, o); }
+                    let mut p1e = p1.clone(); p1e.push(Op::Enc);
+                    let obs = exec(&p1e); emit(&p1e, &obs);
+                    if run1.dead || budget == 0 { continue; }
+                    for o2 in alphabet(&run1, true) {
+                        if budget == 0 { break; } budget -= 1;
+                        let mut p2 = p1.clone(); p2.push(o2); p2.push(Op::Enc);
+                        let obs = exec(&p2); emit(&p2, &obs);
+                    }
+                }
+            }
+        }
+        return;
+    }
     if let Some(replay) = args.get(5) {
         for line in std::fs::read_to_string(replay).unwrap().lines() {
             if let Some(h) = line.strip_prefix("H ") {
@@ -404,6 +436,7 @@ fn main() {
         vec![Op::Reg(0), Op::Inst(0, 0), Op::Imp(0, 0)],
         vec![Op::Reg(0), Op::Reg(1), Op::Inst(0, 0), Op::Inst(1, 0), Op::Alias(0, 1), Op::SetArg(1, 0, 2)],
         vec![Op::Def(6, 0), Op::Def(7, 2)],
+        vec![Op::Reg(4), Op::Inst(0, 0), Op::Imp(3, 0), Op::SetArg(0, 0, 1), Op::SetArg(0, 1, 1)],
     ];
     fn rec(prefix: &mut Vec<Op>, depth: usize, exec: &dyn Fn(&[Op]) -> Vec<String>, emit: &mut dyn FnMut(&[Op], &[String]), u: &Universe, limit: &mut usize) {
         if *limit == 0 { return; }
